@@ -153,6 +153,15 @@ func procTreeChild(args []string) {
 		time.Sleep(5 * time.Millisecond)
 	}
 	time.Sleep(at)
+	if start == "Start+refused-Execute" {
+		// misuse of the object that must not disarm it: Execute() on a subprocess that is already running is refused
+		refused := make(chan struct{})
+		go func() { _ = p.Execute(); close(refused) }()
+		select {
+		case <-refused:
+		case <-time.After(2 * time.Second):
+		}
+	}
 	tStop := time.Now()
 	returned := make(chan struct{})
 	go func() {
@@ -245,6 +254,7 @@ func procTreeMain(args []string) {
 			jobs = append(jobs, job{si, "supervisor", stop, 30, false})
 		}
 		jobs = append(jobs, job{si, "Start", "Restart", 30, false})
+		jobs = append(jobs, job{si, "Start+refused-Execute", "Stop", 30, false})
 		for _, start := range []string{"Execute", "Start"} {
 			for _, stop := range []string{"ctx-cancel", "ctx-deadline", "Cancel", "Stop"} {
 				for _, at := range instants {
